@@ -71,3 +71,67 @@ Definition is_hook_of (ex : bool) (s : string) (i : smlitem) : bool :=
 Definition count {A} (f : A -> bool) (l : list A) : nat := length (filter f l).
 Definition hook_state (i : smlitem) : option string :=
   match i with IEntry s _ | IExit s _ => Some s | IRow _ => None end.
+
+(* ------------------------------------------------------------------ an executable reading of the emitted table
+   The ASSUMED semantics of boost::sml for the subset the table uses (stated here, not verified against sml itself):
+     * the state marked `*` is the initial state; constructing the machine runs the on_entry hooks of that state;
+     * process_event(e): the transition rows are tried in table order; a row applies when its source is the current state
+       and its event is e; its guard is then called (the always-true `gnone` is not a user callback) and the first row whose
+       guard holds fires, the others are not looked at; when no row fires nothing happens;
+     * a row with `= state<T>` is an external transition, also when T is the source: the on_exit hooks of the source, the
+       action (unless `none`), then the state becomes T and the on_entry hooks of T run; a row without target is internal:
+       the action alone;
+     * `state<S> + on_entry<_> / h` (on_exit) rows are the hooks of S, run in table order.
+   Callbacks carry the names the table text carries (the lowerCamelCase functor instances for guards and actions). *)
+From KV Require Import Spec.TableInterp.
+
+Definition hook_cbs (ex : bool) (s e : string) (items : list smlitem) : list cb :=
+  flat_map (fun i => match i, ex with
+                     | IEntry s' a, false => if String.eqb s' s then [if String.eqb a (camel_small s' ++ sml_entry_suffix) then CEntry s' e else CAction a e] else []
+                     | IExit s' a, true => if String.eqb s' s then [if String.eqb a (camel_small s' ++ sml_exit_suffix) then CExit s' e else CAction a e] else []
+                     | _, _ => []
+                     end) items.
+
+Definition sml_act_cbs (r : smlrow) (e : string) : list cb :=
+  if String.eqb (q_act r) sml_none then [] else [CAction (q_act r) e].
+
+Fixpoint sml_step (items : list smlitem) (gv : gval) (n : nat) (cur e : string) (rows : list smlrow) : list cb * string * nat :=
+  match rows with
+  | [] => ([], cur, n)
+  | r :: rest =>
+      if String.eqb (q_src r) cur && String.eqb (q_ev r) e then
+        let fired :=
+          match q_target r with
+          | Some tgt => ((hook_cbs true cur e items ++ sml_act_cbs r e ++ hook_cbs false tgt e items)%list, tgt)
+          | None => (sml_act_cbs r e, cur)
+          end in
+        if String.eqb (q_guard r) sml_gnone then (fst fired, snd fired, n)
+        else if gv n (q_guard r) then (CGuard (q_guard r) e :: fst fired, snd fired, S n)
+        else let '(t, s, n') := sml_step items gv (S n) cur e rest in (CGuard (q_guard r) e :: t, s, n')
+      else sml_step items gv n cur e rest
+  end.
+
+Fixpoint sml_run_from (items : list smlitem) (gv : gval) (n : nat) (cur : string) (evs : list string) : list (list cb * string) :=
+  match evs with
+  | [] => []
+  | e :: r =>
+      let '(tr, s, n') := sml_step items gv n cur e (rows_of items) in
+      (tr, s) :: sml_run_from items gv n' s r
+  end.
+
+Definition sml_initial (items : list smlitem) : string :=
+  match filter q_init (rows_of items) with r :: _ => q_src r | [] => "" end.
+
+Definition sml_run (items : list smlitem) (evs : list string) (gv : gval) : list (list cb * string) :=
+  (hook_cbs false (sml_initial items) startup_event items, sml_initial items) ::
+  sml_run_from items gv 0 (sml_initial items) evs.
+
+(* the interpreter's callbacks in the names the table text carries *)
+Definition camel_cb (c : cb) : cb :=
+  match c with CGuard g e => CGuard (camel_small g) e | CAction a e => CAction (camel_small a) e | other => other end.
+Definition camel_steps (l : list (list cb * string)) : list (list cb * string) :=
+  map (fun p => (map camel_cb (fst p), snd p)) l.
+
+(* no user guard may take the instance name of the always-true guard (known finding: guard Gnone) *)
+Definition sml_names_ok (t : table) : bool :=
+  forallb (fun g => negb (String.eqb (camel_small g) sml_gnone)) (guards t).
